@@ -37,7 +37,7 @@ CHECKS = {
          "exhaustive in the key dimension per ontology, ontologies sampled; ids >= 10^7 may be refused by a panic at insertion (outside the statement)", "DESIGN.md §5 C10"),
  "C20": ("exploration", "exhaustive id-space enumeration + totality monitor (catch_unwind) with a grammar oracle over enumerated and seeded strings",
          "Every id 0..10^7 and the u32 borders are rendered, parsed back and converted through bytes in every run (exhaustive for that half); try_from(&str) is driven with all 66430 strings of <=5 symbols over a 9-symbol alphabet incl. 2/3/4-byte characters, numeric borders and seeded longer strings under a panic monitor.",
-         "a leading '+' is not judged; From<String>/PartialEq<&str> are documented to panic and excluded", "DESIGN.md §5 C20"),
+         "a leading '+' is not judged; From<String>/PartialEq<&str> are documented to panic on malformed text and are exercised on valid renderings only", "DESIGN.md §5 C20"),
  "C07": ("exploration", "metamorphic round-trip monitor (observational identity through the whole read API + compare())",
          "Ontologies obtained through every public constructor (incl. obsolete/replaced terms, over-long and multi-byte names, empty sections, border ids) are walked, serialised, reloaded and walked again; the observations must be identical up to the documented 255-byte name trim, compare() must be empty, and a second generation must be stable.",
          "a reloaded name > 255 bytes may be any 252..255-byte prefix; replacement id 0 is not generated (the format encodes 'none' as 0)", "DESIGN.md §5 C07"),
